@@ -3,6 +3,7 @@ package rules
 import (
 	"fmt"
 	"go/token"
+	"sort"
 	"strings"
 
 	"golang.org/x/tools/go/ssa"
@@ -312,4 +313,120 @@ func isSpawn(in ssa.Instruction) bool {
 		return n == core.M("internal/pool.Go") || n == "github.com/IrineSistiana/gopool.Go" || n == "time.AfterFunc"
 	}
 	return false
+}
+
+// ---- branch-consistent reachability ----
+
+// condKeyOf normalises a branch condition: NOTs are peeled into the polarity, `x == nil` / `x != nil` are keyed by x.
+func condKeyOf(v ssa.Value) (key string, positive bool) {
+	positive = true
+	for {
+		if u, ok := v.(*ssa.UnOp); ok && u.Op == token.NOT {
+			v = u.X
+			positive = !positive
+			continue
+		}
+		break
+	}
+	if tv, trueIsNil, ok := core.NilTest(v); ok {
+		// key: "tv is nil"; the condition is true iff (tv is nil) == trueIsNil
+		if !trueIsNil {
+			positive = !positive
+		}
+		return fmt.Sprintf("nil:%p", tv), positive
+	}
+	return fmt.Sprintf("v:%p", v), positive
+}
+
+// reachConsistent reports whether some path from `from` (nil = function entry) reaches an instruction satisfying
+// target without passing one satisfying avoid, where a path may not take contradictory outcomes for the same
+// condition value. Conditions computed inside a loop are not tracked (they may differ between iterations).
+func reachConsistent(fn *ssa.Function, from ssa.Instruction, target, avoid func(ssa.Instruction) bool) ssa.Instruction {
+	inLoop := map[*ssa.BasicBlock]bool{}
+	for _, l := range naturalLoops(fn) {
+		for b := range l.body {
+			inLoop[b] = true
+		}
+	}
+	tracked := func(cond ssa.Value) bool {
+		v := cond
+		for {
+			if u, ok := v.(*ssa.UnOp); ok && u.Op == token.NOT {
+				v = u.X
+				continue
+			}
+			break
+		}
+		if tv, _, ok := core.NilTest(v); ok {
+			v = tv
+		}
+		if in, ok := v.(ssa.Instruction); ok && inLoop[in.Block()] {
+			return false
+		}
+		return true
+	}
+	type state struct {
+		b   *ssa.BasicBlock
+		env string
+	}
+	seen := map[state]bool{}
+	var found ssa.Instruction
+	var walk func(b *ssa.BasicBlock, start int, env map[string]bool)
+	envStr := func(env map[string]bool) string {
+		var ks []string
+		for k, v := range env {
+			ks = append(ks, fmt.Sprintf("%s=%v", k, v))
+		}
+		sort.Strings(ks)
+		return strings.Join(ks, ",")
+	}
+	walk = func(b *ssa.BasicBlock, start int, env map[string]bool) {
+		if found != nil {
+			return
+		}
+		if start == 0 {
+			st := state{b, envStr(env)}
+			if seen[st] {
+				return
+			}
+			seen[st] = true
+		}
+		for i := start; i < len(b.Instrs); i++ {
+			in := b.Instrs[i]
+			if target(in) {
+				found = in
+				return
+			}
+			if avoid != nil && avoid(in) {
+				return
+			}
+		}
+		if iff, ok := b.Instrs[len(b.Instrs)-1].(*ssa.If); ok && tracked(iff.Cond) {
+			key, pos := condKeyOf(iff.Cond)
+			for i, s := range b.Succs {
+				val := (i == 0) == pos // value of the keyed proposition on this edge
+				if old, has := env[key]; has && old != val {
+					continue
+				}
+				env2 := map[string]bool{}
+				for k, v := range env {
+					env2[k] = v
+				}
+				env2[key] = val
+				walk(s, 0, env2)
+			}
+			return
+		}
+		for _, s := range b.Succs {
+			walk(s, 0, env)
+		}
+	}
+	if from == nil {
+		if len(fn.Blocks) > 0 {
+			walk(fn.Blocks[0], 0, map[string]bool{})
+		}
+	} else {
+		walk(from.Block(), core.InstrIndex(from)+1, map[string]bool{})
+	}
+	return found
 }
